@@ -106,7 +106,8 @@ theorem decPrep_peek_refused (st : DecState) (segs : List Seg) (store : List Byt
 theorem peek_refused (v : Variant) (st : DecState) (a : Nat) (w : List Byte)
     (h : st.msg.isSome ∨ st.len = 0 ∨ w.length < st.curr) (hle : st.pos + st.len ≤ st.curr) :
     (decodeV v st [(a, w)] true).st = st ∧ (decodeV v st [(a, w)] true).store = w ∧
-    (decodeV v st [(a, w)] true).ret ≠ .oob ∧ (decodeV v st [(a, w)] true).ret ≠ .clobber := by
+    (decodeV v st [(a, w)] true).ret ≠ .oob ∧ (decodeV v st [(a, w)] true).ret ≠ .clobber ∧
+    ∃ e, (decodeV v st [(a, w)] true).ret = .err e := by
   have hflat : flat ([(a, w)].take 1) = w := by simp [flat]
   obtain ⟨e, he, hne⟩ := decPrep_peek_refused st ([(a, w)].take 1) (flat ([(a, w)].take 1)) (by rw [hflat]; exact h) hle
   have hc : decodeCobs v st [(a, w)] true = { ret := .err e, st := st, store := w } := by
@@ -548,6 +549,65 @@ theorem peekQ_phase (v : Variant) (frames : List (List Byte)) (ms : List Msg) (h
 theorem peekQ_delivered (v : Variant) (q : DecodeQueue) (h : DInv q) (b used : Nat) (hs : skipTo q.ring q.st.pos = some (b, used))
     (hm : q.st.msg.isSome) : (peekQ v q b used).st = q.st ∧ (peekQ v q b used).ring.content = q.ring.content :=
   peekQ_refused v q h b used hs (Or.inl hm)
+
+/-- **`mpt_queue_peek` is total** on every state with consistent offsets, any data, with or without destination:
+    no access outside the storage (the decoder stays inside the piece it is given, the copy to the destination
+    stays inside the decoded bytes) -/
+theorem queuePeek_total (v : Variant) (q : DecodeQueue) (h : DInv q) (hc : q.codec = some v) (mx : Nat) (dst : Bool) :
+    ∃ q' r out, queuePeek q mx dst = .ok (q', r, out) := by
+  have hmin : min q.st.pos q.st.curr = q.st.pos := by have := h.bnd.le; omega
+  have key : ∀ x, queuePeek q mx dst = x → ∃ q' r out, x = .ok (q', r, out) := by
+    intro x he
+    unfold queuePeek at he
+    split at he
+    · subst he; exact ⟨_, _, _, rfl⟩
+    rw [hc] at he
+    simp only [hmin] at he
+    split at he
+    · subst he; exact ⟨_, _, _, rfl⟩
+    · rename_i b used hsk
+      obtain ⟨hb, hu, _⟩ := skipTo_spec q.ring h.wf _ b used hsk
+      have hle := h.bnd.le
+      have hwl : ((q.ring.store.drop b).take used).length = used := by simp only [List.length_take, List.length_drop]; omega
+      have hwf : ∀ m, (peekSt q.st).msg = some m → m = (peekSt q.st).len := h.bnd.msg
+      have hflat : (flat (if true = true then [(q.base + b, (q.ring.store.drop b).take used)].take 1 else [(q.base + b, (q.ring.store.drop b).take used)])).length = used := by
+        simp [flat]; omega
+      have hsafe := decodeV_safe v (peekSt q.st) [(q.base + b, (q.ring.store.drop b).take used)] true hwf
+      have hol := hsafe.len
+      rw [hflat] at hol
+      have hnf := hsafe.nofault
+      have hwr := Mem.write_length q.ring.store b _ (by rw [hol]; exact hb)
+      have hbound : (∀ e, (decodeV v (peekSt q.st) [(q.base + b, (q.ring.store.drop b).take used)] true).ret ≠ .err e) →
+          (decodeV v (peekSt q.st) [(q.base + b, (q.ring.store.drop b).take used)] true).st.pos +
+            (decodeV v (peekSt q.st) [(q.base + b, (q.ring.store.drop b).take used)] true).st.len ≤ used := by
+        intro hne
+        by_cases hcc : q.st.curr - q.st.pos ≤ used
+        · have hbnd := decodeV_bnd v (peekSt q.st) [(q.base + b, (q.ring.store.drop b).take used)] true
+            (by rw [hflat]; exact ⟨by simp only [peekSt]; omega, by simp only [peekSt]; omega, hwf⟩)
+          rw [hflat] at hbnd
+          have := hbnd.le; have := hbnd.tot; omega
+        · obtain ⟨_, _, _, _, e, he'⟩ := peek_refused v (peekSt q.st) (q.base + b) ((q.ring.store.drop b).take used)
+            (Or.inr (Or.inr (by rw [hwl]; simp only [peekSt]; omega))) (by simp only [peekSt]; omega)
+          exact absurd he' (hne e)
+      simp only [peekSt] at hnf hbound hwr
+      split at he
+      · rename_i heq; exact absurd heq hnf.1
+      · rename_i heq; exact absurd heq hnf.2
+      · split at he <;> split at he
+        all_goals first
+          | (subst he; exact ⟨_, _, _, rfl⟩)
+          | (rename_i hno; simp at hno; done)
+          | (unfold Mem.rd at he
+             split at he
+             · simp only [Res.bind_ok, Res.pure_eq] at he
+               subst he; exact ⟨_, _, _, rfl⟩
+             · rename_i hret _ hoob
+               exfalso
+               apply hoob
+               rw [hwr]
+               have := hbound (fun e he' => hret e he')
+               omega)
+  exact key _ rfl
 
 /-- `mpt_queue_peek` keeps offsets and storage bounds, any data -/
 theorem queuePeek_inv (v : Variant) (q : DecodeQueue) (h : DInv q) (hc : q.codec = some v) (mx : Nat) (dst : Bool)
